@@ -73,11 +73,12 @@ def check(col, prog, tier, profile, fixture=None):
             raise Anchor("cannot evaluate the Writer buffer capacity %s" % capt_)
         cap = int(cands[0]["val"])
     wb = util.need_body(crate, "Writer::<'a>::write_bytes")
-    rs = util.need_body(crate, "Writer::<'a>::reserve")
     fl = util.need_body(crate, "Writer::<'a>::flush")
     wr = util.need_body(crate, "Writer::<'a>::write")
     wc = util.need_body(crate, "Writer::<'a>::write_char")
-    col.rule("V1" + sfx, "reserve(len) -> copy into buf[end..end+len] -> end += len; reserve flushes iff end+size > capacity; callers pass bounded slices", floor=12)
+    helpers = util.private_helpers(crate, "Writer", exclude=[wb, fl, wr, wc])
+    A = util.analyser(helpers)
+    col.rule("V1" + sfx, "reserve(len) -> copy into buf[end..end+len] -> end += len; reserve flushes iff end+size > capacity; callers pass bounded slices", floor=8)
     col.rule("V2" + sfx, "flush: early return iff end == 0; write_all(&buf[..end]) then end = 0; sink only via write_all in flush", floor=3)
     col.rule("V3" + sfx, "Drop flushes", floor=1)
     col.rule("V4" + sfx, "flush-per-write in the dev profile, not in release", floor=2)
@@ -86,49 +87,46 @@ def check(col, prog, tier, profile, fixture=None):
     col.rule("V7" + sfx, "signed: '-' iff negative, magnitude through unsigned_abs", floor=6)
     col.rule("V8" + sfx, "separators: tuples W (S W)*, Vec separator before every element but the first", floor=8)
 
-    # ---------------- V1
-    I = util.analyse(wb)
+    # ---------------- V1  (write_bytes with its private helpers AND flush inlined: one path = one complete append)
+    I = util.analyser(helpers + [fl])(wb)
     selfp = ("deref", ("param", 1, I.names.get(1)))
     bufp = ("deref", ("param", 2, I.names.get(2)))
-    endl = ("load", ("m0",), ("field", selfp, END))
-    for st in I.final_states:
+    end0 = ("load", ("m0",), ("field", selfp, END))
+    L = ("len", ("load", ("m0",), bufp))
+    for n, st in enumerate(I.final_states):
         evs = st.event_list()
-        L = ("len", ("load", ("m0",), bufp))
-        rsv = [k for k, e in enumerate(evs) if _is(e, rs) and e.args[1] == L]
         cp = [k for k, e in enumerate(evs) if e.kind == "call" and e.extra.get("name") == "copy_from_slice"]
         adv = [k for k, e in enumerate(evs) if e.kind == "store" and e.place == ("field", selfp, END)]
-        ok = len(rsv) == 1 and len(cp) == 1 and len(adv) == 1 and rsv[0] < cp[0] < adv[0]
-        if ok:
+        key = "%s|room-copy-advance" % fk(wb)
+        why = None
+        if len(cp) != 1:
+            why = "%d copies into the buffer on one path" % len(cp)
+        else:
             c = evs[cp[0]]
             dst = c.args[0]
-            end_after = ("load", None, ("field", selfp, END))
-            okd = dst[0] == "ref" and dst[1][0] == "range" and dst[1][1] == ("field", selfp, BUF)
-            if okd:
-                rg = dst[1][2]
-                okd = rg[0] == "agg" and rg[1][1].endswith("ops::Range") and util.lin_equal(rg[2][1], ("bin", "Add", rg[2][0], L)) and rg[2][0][0] == "load" and rg[2][0][2] == ("field", selfp, END)
-            ok = okd and c.args[1] in (("param", 2, I.names.get(2)), ("ref", bufp))
-            a = evs[adv[0]]
-            old = I.load(a.state[1], ("field", selfp, END))
-            ok = ok and util.lin_equal(a.val, ("bin", "Add", old, L))
-        key = "%s|reserve-copy-advance" % fk(wb)
-        if ok:
-            col.ok("V1" + sfx, wb.loc(), key, "reserve(len); buf[end..end+len] <- bytes; end += len")
+            okd = dst[0] == "ref" and dst[1][0] == "range" and dst[1][1] == ("field", selfp, BUF) and dst[1][2][0] == "agg" and str(dst[1][2][1][1]).endswith("ops::Range")
+            if not okd or c.args[1] not in (("param", 2, I.names.get(2)), ("ref", bufp)):
+                why = "the copy is not buf[a..b].copy_from_slice(bytes): %s <- %s" % (tstr(dst), tstr(c.args[1]))
+            else:
+                a_, b_ = dst[1][2][2]
+                # the Writer's invariant end <= capacity and the callers' bound len <= capacity (V1b) are assumed
+                facts = set(c.state[0]) | {("eq", ("bin", "Le", end0, mk_int(cap)), 1), ("eq", ("bin", "Le", L, mk_int(cap)), 1)}
+                z = zones.zone_of(frozenset(facts), I.tys)
+                cur_end = I.load(c.state[1], ("field", selfp, END))
+                if not util.lin_equal(b_, ("bin", "Add", a_, L)):
+                    why = "the destination range %s..%s is not exactly len(bytes) long" % (tstr(a_), tstr(b_))
+                elif not (a_ == cur_end or z.entails("Eq", a_, cur_end)):
+                    why = "the destination does not start at the current fill level (starts at %s, end is %s)" % (tstr(a_), tstr(cur_end))
+                elif not z.entails("Le", ("bin", "Add", a_, L), mk_int(cap)):
+                    why = "on this path end + len <= capacity (%d) is not entailed at the copy: the bytes do not fit (no flush, or a wrong threshold)" % cap
+                else:
+                    later = [k for k in adv if k > cp[0]]
+                    if len(later) != 1 or not util.lin_equal(evs[later[0]].val, ("bin", "Add", a_, L)):
+                        why = "end is not advanced by exactly len(bytes) after the copy"
+        if why is None:
+            col.ok("V1" + sfx, wb.loc(), key + "|%d" % n, "room for len entailed; buf[end..end+len] <- bytes; end += len")
         else:
-            col.violation("V1" + sfx, key, wb.loc(), "write_bytes must reserve(len), copy into buf[end..end+len] and then advance end by the same len, in this order")
-    I = util.analyse(rs)
-    selfp = ("deref", ("param", 1, I.names.get(1)))
-    size = ("param", 2, I.names.get(2))
-    for st in I.final_states:
-        flushed = any(_is(e, fl) for e in st.event_list())
-        endl = ("load", ("m0",), ("field", selfp, END))
-        z = zones.zone_of(st.facts, I.tys)
-        over = z.entails("Gt", ("bin", "Add", endl, size), mk_int(cap))
-        fits = z.entails("Le", ("bin", "Add", endl, size), mk_int(cap))
-        key = "%s|%s" % (fk(rs), "flush-path" if flushed else "no-flush-path")
-        if (flushed and over) or (not flushed and fits):
-            col.ok("V1" + sfx, rs.loc(), key, "flush iff end + size > capacity (%d)" % cap)
-        else:
-            col.violation("V1" + sfx, "%s|threshold" % fk(rs), rs.loc(), "reserve must flush exactly when end + size exceeds the buffer capacity: on the %s path %s is not entailed (bytes would be written past the buffer or flushed needlessly out of order)" % ("flush" if flushed else "no-flush", "end + size > capacity" if flushed else "end + size <= capacity"))
+            col.violation("V1" + sfx, key, wb.loc(), "write_bytes: %s" % why)
     # V1b callers
     base10 = _base10(prog)
     for b in crate.bodies:
@@ -179,6 +177,22 @@ def check(col, prog, tier, profile, fixture=None):
                             if e2.kind == "call" and e2.extra.get("name") == "chunks":
                                 k = e2.args[1]
                                 bound = k[1] if k[0] == "int" else _assoc_value(crate, k)
+                if bound is None and b.is_closure:
+                    # the closure forwards its own parameter: the bound comes from the iterator it is applied to
+                    # in the parent (`chunks(K).for_each(|chunk| self.write_bytes(chunk))`)
+                    par = crate.by_key.get(b.parent)
+                    if par is not None and any(s_[0] == "param" for s_ in [a] + list(subterms(a))):
+                        Ip = util.analyse(par)
+                        for stp in Ip.all_end_states():
+                            for e2 in stp.event_list():
+                                if e2.kind != "call" or not any(isinstance(x, tuple) and x and x[0] == "agg" and isinstance(x[1], tuple) and x[1][0] == "closure" and x[1][1] == b.key for x in e2.args):
+                                    continue
+                                for x in e2.args:
+                                    for s_ in [x] + list(subterms(x)):
+                                        if s_[0] == "call" and str(s_[1]).endswith("::chunks"):
+                                            k = [y for y in s_[2] if isinstance(y, tuple) and y and y[0] in ("int", "assoc")]
+                                            if k:
+                                                bound = k[-1][1] if k[-1][0] == "int" else _assoc_value(crate, k[-1])
                 key = "%s|write_bytes-arg" % fk(b)
                 if bound is not None and bound <= cap:
                     col.ok("V1" + sfx, b.loc(ev.bb), key, "slice length <= %d <= capacity %d" % (bound, cap))
@@ -186,19 +200,20 @@ def check(col, prog, tier, profile, fixture=None):
                     col.violation("V1" + sfx, key, b.loc(ev.bb), "%s passes %s to write_bytes and its length is not bounded by the buffer capacity %d: after reserve() the copy no longer fits" % (b.path, desc, cap))
 
     # ---------------- V2
-    I = util.analyse(fl)
+    I = A(fl)
     selfp = ("deref", ("param", 1, I.names.get(1)))
     endl = ("load", ("m0",), ("field", selfp, END))
     for st in I.final_states:
         evs = st.event_list()
-        early = ("eq", ("bin", "Eq", endl, mk_int(0)), 1) in st.facts
-        if early:
-            ok = not [e for e in evs if e.kind in ("call", "store")]
+        z = zones.zone_of(st.facts, I.tys)
+        acts = [e for e in evs if e.kind in ("call", "store") and not (e.kind == "call" and e.extra.get("pure") and e.extra.get("name") in ("index", "deref", "len"))]
+        if not [e for e in evs if e.kind == "store" or (e.kind == "call" and e.extra.get("name") == "write_all")]:
+            # a path that does nothing is right exactly when nothing is buffered
             key = "%s|early-return" % fk(fl)
-            if ok:
+            if z.entails("Eq", endl, mk_int(0)):
                 col.ok("V2" + sfx, fl.loc(), key, "nothing buffered: returns")
             else:
-                col.violation("V2" + sfx, key, fl.loc(), "flush with an empty buffer must do nothing")
+                col.violation("V2" + sfx, key, fl.loc(), "flush returns without writing on a path where the buffer is not known to be empty: buffered bytes are dropped")
             continue
         wa = [k for k, e in enumerate(evs) if e.kind == "call" and e.extra.get("name") == "write_all" and e.args[0] == ("ref", ("field", selfp, SINK))]
         others = [e for e in evs if e.kind == "call" and e.args and e.args[0] == ("ref", ("field", selfp, SINK)) and e.extra.get("name") != "write_all"]
@@ -311,30 +326,58 @@ def check(col, prog, tier, profile, fixture=None):
                     col.ok("V8" + sfx, b.loc(), key, "W (S W)* with %d separators, field order" % (arity - 1))
                 else:
                     col.violation("V8" + sfx, "%s|sequence" % fk(b), b.loc(), "tuple writer emits %s; expected the %d components in field order with exactly one ' ' between neighbours" % (seq, arity))
-        elif sty.startswith(("std::vec::Vec<", "alloc::vec::Vec<")):
+        elif sty.startswith(("std::vec::Vec<", "alloc::vec::Vec<")) or (sty.startswith("[") and sty.endswith("]") and ";" not in sty):
             I = util.analyse(b)
-            backs = [s for l in I.backedge_states.values() for s in l]
-            sep_first = sep_rest = None
+            key = "%s|separator-before-all-but-first" % fk(b)
+            # delegation to another sequence impl (Vec -> slice): that impl is judged on its own
+            deleg = None
+            for st in I.final_states:
+                for e in st.event_list():
+                    if e.kind == "call" and e.extra.get("name") == "write" and (e.extra.get("trait") or "").endswith("Writable"):
+                        tgt = crate.by_key.get((e.fn.get("resolved") or e.fn).get("def"))
+                        ti = crate.impl_of(tgt) if tgt is not None else None
+                        if ti is not None and ti["self_ty"].startswith("[") and not I.backedge_states:
+                            deleg = ti["self_ty"]
+            if deleg:
+                col.ok("V8" + sfx, b.loc(), key, "delegates to the %s writer" % deleg)
+                continue
+
+            def emis(evs):
+                out = []
+                for e in evs:
+                    if _is(e, wc):
+                        out.append("S" if e.args[1] == mk_int(32) else "?")
+                    elif _is(e, wr):
+                        out.append("W")
+                return out
+
+            backs = [s_ for l in I.backedge_states.values() for s_ in l]
+            pre_set, it_first, it_rest, its = set(), None, None, []
             for st in backs:
                 evs = st.event_list()
                 li = max(k for k, e in enumerate(evs) if e.kind == "loop")
-                seps = [k for k, e in enumerate(evs) if k > li and _is(e, wc) and e.args[1] == mk_int(32)]
-                ws = [k for k, e in enumerate(evs) if k > li and _is(e, wr)]
+                pre_set.add(tuple(emis(evs[:li])))
+                it = emis(evs[li:])
                 first = None
                 for f in st.facts:
                     t = f[1]
-                    if f[0] == "eq" and isinstance(t, tuple) and t[0] == "bin" and t[1] in ("Ne", "Eq") and t[3] == mk_int(0):
+                    if f[0] == "eq" and isinstance(t, tuple) and t[0] == "bin" and t[1] in ("Ne", "Eq") and t[3] == mk_int(0) and any(x[0] in ("phi", "rnext", "call", "proj") for x in subterms(t[2])) :
                         first = (t[1] == "Ne") != bool(f[2])
-                ok = len(ws) == 1 and (not seps or max(seps) < ws[0])
-                if first is True:
-                    sep_first = ok and not seps
-                elif first is False:
-                    sep_rest = ok and len(seps) == 1
-            key = "%s|separator-before-all-but-first" % fk(b)
-            if sep_first and sep_rest:
-                col.ok("V8" + sfx, b.loc(), key, "i == 0: no separator; i != 0: one ' ' before the element")
+                its.append((first, it))
+            post_ok = True
+            for st in I.final_states:
+                evs = st.event_list()
+                lis = [k for k, e in enumerate(evs) if e.kind == "loop"]
+                if lis:
+                    post_ok = post_ok and not emis(evs[max(lis):])
+                else:
+                    post_ok = post_ok and not emis(evs)   # the empty sequence prints nothing
+            form_a = pre_set == {()} and its and all((f is True and it == ["W"]) or (f is False and it == ["S", "W"]) for f, it in its) and {f for f, _ in its} == {True, False}
+            form_b = pre_set == {("W",)} and its and all(it == ["S", "W"] for _, it in its)
+            if post_ok and (form_a or form_b):
+                col.ok("V8" + sfx, b.loc(), key, "W (S W)*: %s" % ("index 0 without separator, every other element preceded by one ' '" if form_a else "first element, then ' ' + element for the rest"))
             else:
-                col.violation("V8" + sfx, key, b.loc(), "Vec writer must emit one ' ' before every element except the first (and none after the last)")
+                col.violation("V8" + sfx, key, b.loc(), "sequence writer must emit one ' ' before every element except the first (and none after the last)")
 
 
 def _assoc_value(crate, t):
@@ -388,6 +431,8 @@ def _digits(col, crate, base10, wb, wc, wr, sfx):
             backs = [s for l in I.backedge_states.values() for s in l]
             okloop = bool(backs)
             why = "no digit loop"
+            index_local = None
+            dowhile = False
             for st in backs:
                 head = [h for h in I.loops][0]
                 arr = st.env.get(bufl)
@@ -398,19 +443,29 @@ def _digits(col, crate, base10, wb, wc, wr, sfx):
                     ok = idx[0] == "bin" and idx[1] == "Sub" and idx[3] == mk_int(1) and idx[2][0] == "phi"
                     il = idx[2][2]
                     ok = ok and st.env.get(il) == idx
-                    # digit = (value % 10) as u8 + 48
-                    okd = dig[0] == "bin" and dig[1] == "Add" and dig[3] == mk_int(48)
+                    index_local = il
+                    # digit = (value % 10) as u8 + 48   (either operand order)
+                    okd = dig[0] == "bin" and dig[1] == "Add" and mk_int(48) in (dig[2], dig[3])
                     rem = None
                     if okd:
-                        rem = dig[2][3] if dig[2][0] == "cast" else dig[2]
+                        other = dig[2] if dig[3] == mk_int(48) else dig[3]
+                        rem = other[3] if other[0] == "cast" else other
                         okd = rem[0] == "bin" and rem[1] == "Rem" and rem[3] == mk_int(10) and rem[2][0] == "phi"
                     ok = ok and okd
                     if okd:
                         vl = rem[2][2]
                         nv = st.env.get(vl)
-                        ok = ok and nv == ("bin", "Div", ("phi", head, vl), mk_int(10))
-                        cont = any(f[0] == "eq" and f[2] == 1 and f[1] == ("bin", "Ne", ("phi", head, vl), mk_int(0)) for f in st.facts)
-                        ok = ok and cont
+                        phi_v = ("phi", head, vl)
+                        ok = ok and nv == ("bin", "Div", phi_v, mk_int(10))
+
+                        def nonzero(t):
+                            return any((f[0] == "eq" and ((f[2] == 1 and f[1] == ("bin", "Ne", t, mk_int(0))) or (f[2] == 0 and f[1] == ("bin", "Eq", t, mk_int(0))))) or (f[0] == "ne" and f[1] == t and f[2] == 0) for f in st.facts)
+
+                        # while value != 0 { .. }   or   loop { ..; if value == 0 { break } }
+                        cont_head = nonzero(phi_v)
+                        cont_tail = nonzero(nv)
+                        dowhile = dowhile or (cont_tail and not cont_head)
+                        ok = ok and (cont_head or cont_tail)
                     if not ok:
                         why = "loop body is idx' = %s, digit = %s" % (tstr(idx), tstr(dig))
                 else:
@@ -418,26 +473,36 @@ def _digits(col, crate, base10, wb, wc, wr, sfx):
                 okloop = okloop and ok
             key = "%s|radix-10-loop" % fk(b)
             if okloop:
-                col.ok("V6" + sfx, b.loc(), key, "index -= 1; buf[index] = (value % 10) as u8 + b'0'; value /= 10; while value != 0")
+                col.ok("V6" + sfx, b.loc(), key, "index -= 1; buf[index] = (value % 10) as u8 + b'0'; value /= 10; repeated while the value is non-zero")
             else:
                 col.violation("V6" + sfx, key, b.loc(), "the digit loop of %s is not the radix-10 loop from the end of the buffer (%s)" % (ty, why))
             # emitted slice and zero case
-            okz = oke = False
+            okz = False
+            oke = True
+            ntail = 0
             for st in I.final_states:
                 evs = st.event_list()
-                zero = any(f[0] == "eq" and f[2] == 1 and isinstance(f[1], tuple) and f[1][0] == "bin" and f[1][1] == "Eq" and f[1][3] == ("ref", ("constval", mk_int(0))) for f in st.facts)
-                if zero:
-                    okz = any(_is(e, wc) and e.args[1] == mk_int(48) for e in evs) and not any(_is(e, wb) for e in evs)
-                else:
-                    for e in evs:
-                        if _is(e, wb):
-                            a = e.args[1]
-                            oke = a[0] == "ref" and a[1][0] == "range" and a[1][1] == ("local", bufl) and a[1][2][0] == "agg" and a[1][2][1][1].endswith("RangeFrom") and a[1][2][2][0][0] == "phi"
+                zero = any(f[0] == "eq" and f[2] == 1 and isinstance(f[1], tuple) and f[1][0] == "bin" and f[1][1] == "Eq" and f[1][3] in (("ref", ("constval", mk_int(0))), mk_int(0)) and f[1][2][0] != "bin" for f in st.facts)
+                tails = [e for e in evs if _is(e, wb)]
+                if zero and not tails:
+                    okz = okz or any(_is(e, wc) and e.args[1] == mk_int(48) for e in evs)
+                    continue
+                if len(tails) != 1:
+                    oke = False
+                    continue
+                ntail += 1
+                a = tails[0].args[1]
+                cur = st.env.get(index_local) if index_local is not None else None
+                oke = oke and a[0] == "ref" and a[1][0] == "range" and a[1][1] == ("local", bufl) and a[1][2][0] == "agg" and a[1][2][1][1].endswith("RangeFrom") and cur is not None and a[1][2][2][0] == cur
+                if dowhile:
+                    # the body ran at least once on this path: zero is rendered as the single digit '0'
+                    arr = st.env.get(bufl)
+                    oke = oke and isinstance(arr, tuple) and arr[0] == "upd"
             key = "%s|zero-and-tail" % fk(b)
-            if okz and oke:
-                col.ok("V6" + sfx, b.loc(), key, "0 -> '0'; otherwise emits buf[index..]")
+            if oke and ntail and (okz or dowhile):
+                col.ok("V6" + sfx, b.loc(), key, "0 -> '0'%s; otherwise emits buf[index..]" % (" (the loop body runs at least once)" if dowhile else ""))
             else:
-                col.violation("V6" + sfx, key, b.loc(), "%s writer must special-case zero as '0' and otherwise emit the tail buf[index..]" % ty)
+                col.violation("V6" + sfx, key, b.loc(), "%s writer must render zero as '0' (special case, or a digit loop that runs at least once) and otherwise emit the tail buf[index..]" % ty)
         elif ty in UNSIGNED_OF:
             I = util.analyse(b)
             neg_ok = pos_ok = False
@@ -449,8 +514,10 @@ def _digits(col, crate, base10, wb, wc, wr, sfx):
                 isneg = None
                 for f in st.facts:
                     t = f[1]
-                    if f[0] == "eq" and isinstance(t, tuple) and t[0] == "bin" and t[1] == "Lt" and t[3] == ("ref", ("constval", mk_int(0))):
+                    if f[0] == "eq" and isinstance(t, tuple) and t[0] == "bin" and t[1] == "Lt" and t[3] in (("ref", ("constval", mk_int(0))), mk_int(0)):
                         isneg = bool(f[2])
+                    if f[0] == "eq" and isinstance(t, tuple) and t[0] == "bin" and t[1] == "Ge" and t[3] in (("ref", ("constval", mk_int(0))), mk_int(0)):
+                        isneg = not bool(f[2])
                 okm = len(mag) == 1 and len(ua) == 1 and evs[mag[0]].extra["argvals"][1] == ua[0].res and (ua[0].fn.get("path") or "").startswith("core::num::<impl %s>" % ty)
                 if isneg is True:
                     neg_ok = okm and len(minus) == 1 and minus[0] < mag[0]
